@@ -204,6 +204,174 @@ def features(db, fn):
     return feats
 
 
+def _bit_set(field_short, enumerator):
+    """fact: (x.<field> & E) is non-zero, with E exactly the named enumerator"""
+    def holds(atom, truth):
+        a, op = atom, None
+        c = G.cmp_atom(atom)
+        if c and const_int(c[2]) == 0:
+            op, a = c[0], c[1]
+        elif c and const_int(c[1]) == 0:
+            op, a = c[0], c[2]
+        a = strip_casts(a)
+        if a is None or a.get("k") != "bin" or a.get("op") != "&":
+            return False
+        f = field_of(a["x"]) or field_of(a["y"])
+        if not f or f.split("::")[-1] != field_short:
+            return False
+        names = {x["n"].split("::")[-1] for x in walk(a) if x.get("k") == "ref" and x.get("dk") == "enumc"}
+        if names != {enumerator}:
+            return False
+        nonzero_when_true = op in (None, "!=", ">")
+        return truth if nonzero_when_true else (op == "==" and not truth)
+    return holds
+
+
+def special_member_finders(ctx):
+    """R10.3: the predicates of R10.1 ask `is there a user-declared default / copy / move constructor (assignment)`;
+    the finders must pick that member by C++'s criterion."""
+    db = ctx.db
+    ctx.rule("R10.3", "get_default_constructor() returns a constructor only if it has no parameters or its FIRST parameter has a default; get_copy/move_constructor and get_copy/move_assignment_operator return a member only behind the flag of that name; check_for_constructor sets the move flags only for an rvalue reference and the constructor flags only for a constructor")
+    fn = db.fn(S + "get_default_constructor")
+    rets = [r for r in fn.walk() if r.get("k") == "ret" and r.get("e") is not None and (strip_casts(peel(r["e"])) or {}).get("k") != "nullp"]
+    if not rets:
+        ctx.broken("get_default_constructor: no non-null return")
+
+    def params_vec(n):
+        n = strip_casts(peel(n))
+        return n if (n is not None and (field_of(n) or "").endswith("CPPParameterList::_parameters")) else None
+
+    def callable_with_no_args(atom, truth):
+        c = G.cmp_atom(atom)
+        if not c:
+            return False
+        op, a, b = c
+        if not truth:
+            op = G.NEG[op]
+        for u, v in ((a, b), (b, a)):
+            u = strip_casts(peel(u))
+            if u is None:
+                continue
+            # <params>.size() == 0   /  <params>.empty() is handled below
+            if u.get("k") == "call" and callee_short(u) == "size" and params_vec(u.get("this")) is not None and const_int(v) == 0 and op == "==":
+                return True
+            # <first parameter>->_initializer != nullptr
+            if (field_of(u) or "").endswith("CPPInstance::_initializer") and v is not None and strip_casts(peel(v)).get("k") == "nullp" and op == "!=":
+                base = strip_casts(peel(u.get("b")))
+                while base is not None and base.get("k") == "un" and base.get("op") == "*":
+                    base = strip_casts(peel(base["e"]))
+                if base is None or base.get("k") != "call":
+                    return False
+                nm = callee_short(base)
+                if nm in ("operator*", "operator->") and base.get("a"):
+                    inner = strip_casts(peel(base["a"][0]))
+                    return inner is not None and inner.get("k") == "call" and callee_short(inner) in ("begin", "cbegin") and params_vec(inner.get("this")) is not None
+                if nm == "front":
+                    return params_vec(base.get("this")) is not None
+                if nm == "operator[]" and len(base.get("a", [])) == 2:
+                    return params_vec(base["a"][0]) is not None and const_int(base["a"][1]) == 0
+                if nm == "at" and base.get("a"):
+                    return params_vec(base.get("this")) is not None and const_int(base["a"][0]) == 0
+        return False
+
+    def empty_params(atom, truth):
+        return atom.get("k") == "call" and callee_short(atom) == "empty" and params_vec(atom.get("this")) is not None and truth
+    edges = G.edges_where(fn, G.any_of(callable_with_no_args, empty_params))
+    for i, r in enumerate(rets):
+        ok = G.gated(fn, r, edges)
+        ctx.ob("R10.3", "get_default_constructor|callable-without-arguments", ok, fn.loc(r),
+               "`%s` is %sbehind `no parameters, or the first parameter has a default argument`" % (show(r)[:40], "" if ok else "NOT "))
+    # flag-selected finders
+    n = 0
+    for getter, flag in (("get_copy_constructor", "F_copy_constructor"), ("get_move_constructor", "F_move_constructor"),
+                         ("get_copy_assignment_operator", "F_copy_assignment_operator"), ("get_move_assignment_operator", "F_move_assignment_operator")):
+        for g in db.fns(S + getter):
+            rets = [r for r in g.walk() if r.get("k") == "ret" and r.get("e") is not None and (strip_casts(peel(r["e"])) or {}).get("k") != "nullp"]
+            edges = G.edges_where(g, _bit_set("_flags", flag))
+            for r in rets:
+                n += 1
+                ok = G.gated(g, r, edges)
+                ctx.ob("R10.3", "%s|selected-by|%s" % (getter, flag), ok, g.loc(r), "`%s` is %sbehind `_flags & %s`" % (show(r)[:40], "" if ok else "NOT ", flag))
+    ctx.floor("R10.3", "flag-selected finders", n, 4)
+    # where the flags come from
+    cf = db.fn("CPPInstance::check_for_constructor")
+    sets = {}
+    for x in cf.walk():
+        if x.get("k") == "bin" and x.get("op") == "|=":
+            for e in walk(x["y"]):
+                if e.get("k") == "ref" and e.get("dk") == "enumc":
+                    sets.setdefault(e["n"].split("::")[-1], []).append(x)
+
+    def rvalue(want):
+        def holds(atom, truth):
+            c = G.cmp_atom(atom)
+            if not c:
+                return False
+            op, a, b = c
+            if not truth:
+                op = G.NEG[op]
+            for u, v in ((a, b), (b, a)):
+                if (field_of(u) or "").endswith("_value_category") and v is not None and strip_casts(v).get("k") == "ref" and strip_casts(v).get("n", "").endswith("VC_rvalue"):
+                    return (op == "==") == want
+            return False
+        return holds
+
+    def local_bit(enumerator, want):
+        def holds(atom, truth):
+            a, op = atom, None
+            c = G.cmp_atom(atom)
+            if c and const_int(c[2]) == 0:
+                op, a = c[0], c[1]
+            a = strip_casts(a)
+            if a is None or a.get("k") != "bin" or a.get("op") != "&":
+                return False
+            names = {x["n"].split("::")[-1] for x in walk(a) if x.get("k") == "ref" and x.get("dk") == "enumc"}
+            if names != {enumerator}:
+                return False
+            is_set = truth if op in (None, "!=") else (not truth if op == "==" else None)
+            return is_set is not None and is_set == want
+        return holds
+    table = (("F_move_constructor", True, True), ("F_copy_constructor", False, True),
+             ("F_move_assignment_operator", True, False), ("F_copy_assignment_operator", False, False))
+    for flag, is_rv, is_ctor in table:
+        sites = sets.get(flag, [])
+        if len(sites) != 1:
+            ctx.broken("check_for_constructor: expected one `|= %s`, found %d" % (flag, len(sites)))
+        x = sites[0]
+        ok_rv = G.gated(cf, x, G.edges_where(cf, rvalue(is_rv)))
+        ok_ct = G.gated(cf, x, G.edges_where(cf, local_bit("F_constructor", is_ctor)))
+        ctx.ob("R10.3", "check_for_constructor|%s|value-category" % flag, ok_rv, cf.loc(x), "%s is set only for an %s reference parameter" % (flag, "rvalue" if is_rv else "lvalue"))
+        ctx.ob("R10.3", "check_for_constructor|%s|member-kind" % flag, ok_ct, cf.loc(x), "%s is set only when the member %s a constructor" % (flag, "is" if is_ctor else "is not"))
+    # ... for a member whose first parameter exists and whose further parameters (if any) are defaulted: [class.copy.ctor]
+    def size_cmp(accept):
+        def holds(atom, truth):
+            c = G.cmp_atom(atom)
+            if not c:
+                return False
+            op, a, b = c
+            if not truth:
+                op = G.NEG[op]
+            for u, v, o in ((a, b, op), (b, a, G.SWAP[op])):
+                u = strip_casts(peel(u))
+                if u is not None and u.get("k") == "call" and callee_short(u) == "size" and params_vec(u.get("this")) is not None and const_int(v) is not None:
+                    return accept(o, const_int(v))
+            return False
+        return holds
+
+    def nonempty(atom, truth):
+        return atom.get("k") == "call" and callee_short(atom) == "empty" and params_vec(atom.get("this")) is not None and not truth
+    exists = G.any_of(size_cmp(lambda o, k: (o == "==" and k >= 1) or (o == ">=" and k >= 1) or (o == ">" and k >= 0) or (o == "!=" and k == 0)), nonempty)
+    exactly_one = size_cmp(lambda o, k: o == "==" and k == 1)
+    for flag, _, is_ctor in table:
+        x = sets[flag][0]
+        ok = G.gated(cf, x, G.edges_where(cf, exists))
+        ctx.ob("R10.3", "check_for_constructor|%s|first-parameter-exists" % flag, ok, cf.loc(x), "%s is set only when the member has a first parameter" % flag)
+        if is_ctor:
+            only_one = G.gated(cf, x, G.edges_where(cf, exactly_one))
+            ctx.ob("R10.3", "check_for_constructor|%s|defaulted-extra-parameters-allowed" % flag, not only_one, cf.loc(x),
+                   "X(const X&, int = 0) is a copy constructor too: %s" % ("the flag is NOT restricted to one-parameter members" if not only_one else "the flag is set only behind `size() == 1`, so such a constructor is missed and an implicit one is synthesised next to it"))
+
+
 def run(ctx):
     db = ctx.db
     ctx.rule("R10.1", "each is_*(CPPVisibility) predicate of CPPStructType has every dependency its C++ rule requires (spec: ivf/spec/special_members.json)")
@@ -220,6 +388,9 @@ def run(ctx):
         if "B:wrong-visibility" in feats:
             ctx.ob("R10.1", "%s|B|protected" % pname, False, fn.loc(), "base sub-objects must be judged with V_protected: %s" % feats["B:wrong-visibility"])
     ctx.floor("R10.1", "predicate features", n, 28)
+
+    # ------------------------------------------------------------ R10.3
+    special_member_finders(ctx)
 
     # ------------------------------------------------------------ R10.2
     fd = db.fn("InterrogateBuilder::define_struct_type")
